@@ -421,7 +421,17 @@ func runEngineCase(a *eApp, c *eCfg, persisted bool, inputs [][]byte) ([]eStep, 
 		var pv interface{}
 		var out []byte
 		if persisted {
+			if len(a.Code)%4 == 1 {
+				// a front end that connects before every request: "consecutive calls should be ignored"
+				store.Connect(context.Background(), "")
+			}
 			pe := persist.NewPersister(store)
+			if len(a.Code)%3 == 0 {
+				// the application keeps data of its own on the same handle, and touches it between creating
+				// the persister and handing it to the engine
+				store.SetPrefix(db.DATATYPE_USERDATA)
+				store.Put(context.Background(), []byte("visits"), []byte{byte(len(steps))})
+			}
 			if len(a.Code)%2 == 0 {
 				// the optional flush-after-save: the persister's own State/Memory are emptied by every Save
 				pe = pe.WithFlush()
@@ -978,6 +988,7 @@ type corpusCase struct {
 	fn     map[string][]eFres
 	cfg    eCfg
 	inputs []string
+	heavy  bool // minutes of vm_compute: thorough tier of C01 only
 }
 
 func st1(s string) []eFres { return []eFres{{Content: s}} }
@@ -1058,6 +1069,10 @@ var engineCorpus = []corpusCase{
 		fn: map[string][]eFres{"aa": []eFres{{Content: "v", Set: []uint32{8}}}}, cfg: eCfg{FlagCount: 2}, inputs: []string{"", "7", "0", "2"}},
 	{name: "exit-exact-fit", nodes: [][3]string{{"root", "HALT; INCMP end1 1; INCMP end2 2; INCMP end3 3", "root"}, {"end1", "LOAD bye1 0; HALT", "bye"}, {"end2", "LOAD bye2 0; HALT", "bye"}, {"end3", "LOAD bye3 0; HALT", "bye"}, {"_catch", "HALT; INCMP _ *", "catch"}},
 		fn: map[string][]eFres{"bye1": st1(strings.Repeat("b", 26)), "bye2": st1(strings.Repeat("b", 27)), "bye3": st1(strings.Repeat("b", 28))}, cfg: eCfg{FlagCount: 1, Out: 30}, inputs: []string{"", "2", "", "1", "", "3"}},
+	{name: "output-size-65536", nodes: [][3]string{{"root", "HALT; INCMP foo 1; INCMP bar 2; INCMP baz 3", "root"}, {"foo", "HALT; INCMP _ 0", strings.Repeat("x", 65600)}, {"bar", "LOAD big 0; MAP big; HALT; INCMP _ 0", "b {{.big}}"}, {"baz", "HALT; INCMP _ 0", strings.Repeat("y", 65536)}, {"_catch", "HALT; INCMP _ *", "catch"}},
+		fn: map[string][]eFres{"big": st1(strings.Repeat("z", 65600))}, cfg: eCfg{FlagCount: 1, Out: 65536}, inputs: []string{"", "1", "0", "2", "0", "3", "0"}, heavy: true},
+	{name: "output-size-above-65536", nodes: [][3]string{{"root", "HALT; INCMP foo 1; INCMP bar 2", "root"}, {"foo", "HALT; INCMP _ 0", strings.Repeat("x", 60)}, {"bar", "LOAD big 0; MAP big; MNEXT nxt 11; MPREV prv 22; HALT; INCMP > 11; INCMP < 22; INCMP _ 0", "b {{.big}}"}, {"_catch", "HALT; INCMP _ *", "catch"}},
+		fn: map[string][]eFres{"big": st1(strings.Repeat("one\ntwo\nthree\n", 8))}, cfg: eCfg{FlagCount: 1, Out: 65536 + 40}, inputs: []string{"", "1", "0", "2", "11", "0"}},
 	{name: "percent-in-menu", nodes: [][3]string{{"root", "MOUT sale 1; MOUT salt 2; MOUT plain 3; MSINK; MNEXT nxt 11; MPREV prv 22; HALT; INCMP > 11; INCMP < 22; INCMP foo *", "root"}, {"foo", "MOUT sale 0; HALT; INCMP _ 0", "foo"}, {"_catch", "HALT; INCMP _ *", "catch"}},
 		menu: []kv{{"sale_menu", "20% sale"}, {"salt_menu", "salt %s and %d"}}, cfg: eCfg{FlagCount: 1, Out: 36}, inputs: []string{"", "11", "22", "x", "0"}},
 	{name: "reload-after-next", nodes: [][3]string{{"root", "LOAD sk 0; MAP sk; LOAD cnt 10; RELOAD cnt; MAP cnt; MNEXT nxt 11; MPREV prv 22; HALT; INCMP > 11; INCMP < 22", "r {{.cnt}} {{.sk}}"}, {"_catch", "MOUT back 0; HALT; INCMP _ 0", "catch"}},
@@ -1303,6 +1318,9 @@ func runEngine(o opts) error {
 		w.CaseType, w.Mism, w.Viol, w.PerShard = "ecase17", "engine_mismatches17", "engine_violations_c06x", 12
 	}
 	for i, cc := range engineCorpus {
+		if cc.heavy && !(o.prop == "C01" && (o.tier == "thorough" || os.Getenv("VERIF_WIDEN") == "1")) {
+			continue
+		}
 		g, inputs := cc.build()
 		c, _, err := mkCase(i, "corpus:"+cc.name, g, inputs)
 		if err != nil {
